@@ -129,10 +129,8 @@ func laws() []L {
 					}
 					if m, ok := a.(map[string]any); ok && len(m) > 0 {
 						c := clone(a).(map[string]any)
-						for k := range c {
-							c[k] = genScalar(rnd)
-							break
-						}
+						ks := canonKeys(c) // deterministic choice (map iteration order is random)
+						c[ks[rnd.Intn(len(ks))]] = genScalar(rnd)
 						return c
 					}
 				}
@@ -420,7 +418,19 @@ func laws() []L {
 			return g5lib.NewInst(jsonType(node)+fmt.Sprintf("/depth%d/path%d", jsonDepth(node), len(p)), []string{render(d, nil), p.String()}, func(v []V) string {
 				// an integer-valued number spelled as a double (1.5e10, 2.0) keeps kind DOUBLE in MySQL; this engine
 				// normalises it to an integer — the kind of such numbers is generated but not judged
-				if n, isNum := node.(num); !(isNum && strings.ContainsAny(n.text, ".eE") && n.rat().IsInt()) && !v[0].IsStr(jsonType(node)) {
+				// (the engine also reports UNSIGNED INTEGER for integers ≥ 2^32 that fit a signed BIGINT — a heuristic
+				// of TypeOfJsonValue; INTEGER vs UNSIGNED INTEGER is therefore not judged for non-negative integers)
+				if n, isNum := node.(num); isNum && n.rat().IsInt() {
+					if strings.ContainsAny(n.text, ".eE") {
+						// not judged
+					} else if n.rat().Sign() >= 0 {
+						if !v[0].IsStr("INTEGER") && !v[0].IsStr("UNSIGNED INTEGER") {
+							return "json-type-differs-from-reference"
+						}
+					} else if !v[0].IsStr("INTEGER") {
+						return "json-type-differs-from-reference"
+					}
+				} else if !v[0].IsStr(jsonType(node)) {
 					return "json-type-differs-from-reference"
 				}
 				if !v[1].IsInt(int64(jsonDepth(node))) {
@@ -560,6 +570,8 @@ func pinned(r *core.Run) {
 		`JSON_EXTRACT('{"x[0]":5}', '$."x[0]"')`, "json:5", "NULL")
 	g5lib.Pin(r, "path-key-domain", "member-name-with-dollar-unsupported", `JSON_EXTRACT rejects a quoted member name containing '$'`,
 		`JSON_EXTRACT('{"$":5}', '$."$"')`, "json:5", "ERR:unsupported jsonpath operation")
+	g5lib.Pin(r, "path-key-domain", "member-name-with-leading-dot-not-found", `JSON_EXTRACT does not find a member whose name starts with '.'`,
+		`JSON_EXTRACT('{".a":5}', '$.".a"')`, "json:5", "NULL")
 	// panic: index step applied to a JSON null
 	mode, detail := g5lib.RunOne(g5lib.NewInst("pinned", nil, func(v []V) string { return "" }, `JSON_EXTRACT('{"a":null}', '$.a[0]')`))
 	r.Pinned("index-on-scalar:panic:sql/types.lookupJson", `JSON_EXTRACT('{"a":null}', '$.a[0]') panics (nil dereference in jsonpath.get_idx)`, mode == "panic:sql/types.lookupJson",
